@@ -12,7 +12,7 @@ def b(x):
 class XListSpec(SeqSpec):
     component = "xlist"
     imports = "From Juniper Require Import Common.Base XList.Model XList.Corr."
-    checkers = {"M": "check_M"}
+    checkers = {"M": "check_M", "S": "check_S"}
 
     def gen_one(self, rng, nops):
         ideal = []
@@ -70,7 +70,7 @@ class XListSpec(SeqSpec):
         return ops
 
     def gen(self, rng, tier, scale):
-        n = int((1500 if tier == "quick" else 25000) * scale)
+        n = int((900 if tier == "quick" else 25000) * scale)
         return [{"component": "xlist", "ops": self.gen_one(rng, rng.choice([3, 8, 20, 50, 100] if tier == "quick" else [5, 20, 60, 150, 300]))}
                 for _ in range(n)]
 
